@@ -22,6 +22,7 @@ void _dbus_set_fail_alloc_counter(int until_next_fail);
 int _dbus_get_fail_alloc_counter(void);
 #ifdef DBUS_VERIF_HOOKS
 void _dbus_verif_set_second_fail_gap(int gap);
+int _dbus_verif_get_second_fail_gap(void);
 #endif
 }
 
@@ -132,6 +133,9 @@ static int run_once(const Plan& pl, int k, bool pairs, bool count, std::pair<lon
   _dbus_set_fail_alloc_counter(k);
   h.bus.pump(); h.bus.pump();
   bool fired = _dbus_get_fail_alloc_counter() > (1 << 30);
+#ifdef DBUS_VERIF_HOOKS
+  if (pairs && _dbus_verif_get_second_fail_gap() < 0) fired = true;   // the first failure fired (and armed the second, which may not have been reached)
+#endif
   _dbus_set_fail_alloc_counter(0x7fffffff);
 #ifdef DBUS_VERIF_HOOKS
   _dbus_verif_set_second_fail_gap(-1);
@@ -193,6 +197,21 @@ static int run_once(const Plan& pl, int k, bool pairs, bool count, std::pair<lon
     h.bus.send_bytes(from, encode_msg(s)); Out o; h.model.route(from, s, o); h.bus.pump();
     h.compare_all(o, -1, 0, ("probe signal after allocation " + std::to_string(k) + " failed (" + *outcome + ")").c_str());
   }
+  // exact multiset of match rules: remove each pool rule until the bus says MatchRuleNotFound
+  for (int c = 0; c < pl.nreg; c++) for (int ri = 0; ri < 6; ri++) {
+    MatchRule mr; std::string why; parse_match_rule(kRules[ri], &mr, &why);
+    int have = 0; while (h.model.remove_match(c, mr)) have++;
+    int got_n = 0;
+    for (;;) {
+      RecvFrame rr; std::vector<RecvFrame> oth;
+      sync_call(h.bus, c, "RemoveMatch", {Value::str('s', kRules[ri])}, &rr, &oth);
+      Bus::free_frames(oth);
+      if (rr.valid && rr.msg.type == T_RETURN) { got_n++; if (got_n > have + 8) break; continue; }
+      break;
+    }
+    if (got_n != have) h.fail("state-differs", "after allocation " + std::to_string(k) + " failed (" + *outcome + ") in: " + R.desc + "\n  client" + std::to_string(c) + " holds " + std::to_string(got_n) + " copies of the rule " + kRules[ri] + " but the model says " + std::to_string(have));
+  }
+  for (size_t j = 0; j < h.bus.nclients(); j++) if (h.open((int)j)) { auto g = h.bus.drain((int)j); Bus::free_frames(g); }
   for (int c = 0; c <= unreg; c++) {
     if (!h.open(c)) continue;
     h.log.push_back("client" + std::to_string(c) + " closes");
